@@ -133,10 +133,22 @@ class Ctx:
         self._cur_nontrivial = False
         self._cur_labels: list[str] = []
         self.extra: dict = {}
+        self.slice_deadline: float | None = None
+        self.slice_evals = 0
+        self.guaranteed = 0
 
     # -- budget --------------------------------------------------------------------------------
     def out_of_time(self) -> bool:
-        return self.last_failure is None and (time.time() - self.t0) > self.budget_s
+        if self.last_failure is not None:
+            return False
+        now = time.time()
+        if self.slice_evals < self.guaranteed and (now - self.t0) < 4.0 * self.budget_s:
+            # every variant completes a few cases whatever the machine load (hard cap: four times the budget)
+            return False
+        return (now - self.t0) > self.budget_s or (self.slice_deadline is not None and now > self.slice_deadline)
+
+    def budget_left(self) -> float:
+        return self.budget_s - (time.time() - self.t0)
 
     # -- bookkeeping called by bodies ----------------------------------------------------------
     def note(self, nontrivial: bool | None = None, labels=()):
@@ -151,6 +163,7 @@ class Ctx:
 
     def end_case(self, case):
         self.evaluations += 1
+        self.slice_evals += 1
         d = case_digest(case)
         self.distinct.add(d)
         for lab in set(self._cur_labels):
@@ -231,6 +244,9 @@ def run_part_shard(module_name: str, part_name: str, tier: str, seed: int, shard
         from . import capture
 
         capture.install()
+        from . import covprobe
+
+        covprobe.start()
         mod = importlib.import_module(module_name)
         part = next(p for p in mod.PARTS if p.name == part_name)
         ctx = Ctx(mod.PROPERTY_ID, part_name, tier, seed, shard, budget_s)
@@ -276,6 +292,9 @@ def run_part_shard(module_name: str, part_name: str, tier: str, seed: int, shard
                 per = max(part.min_examples_per_variant, n_examples // max(1, len(mine)))
                 res["extra"]["variants_total"] = len(allv)
                 for vi, variant in enumerate(mine):
+                    # fair time slices: a slow or loaded run shortens every variant instead of dropping the last ones
+                    ctx.slice_deadline = time.time() + max(0.0, ctx.budget_left()) / (len(mine) - vi)
+                    ctx.slice_evals, ctx.guaranteed = 0, min(per, 4)
                     strat = part.strategy(tier, variant)
 
                     @hseed(derive_seed(dseed, json.dumps(variant, sort_keys=True, default=_json_default)))
@@ -291,10 +310,12 @@ def run_part_shard(module_name: str, part_name: str, tier: str, seed: int, shard
                     except BaseException:  # noqa: BLE001
                         if ctx.last_failure is None and ctx.out_of_time():
                             res["extra"]["budget_exhausted"] = True
-                            res["extra"]["variants_not_run"] = len(mine) - vi
-                            break
+                            res["extra"]["variants_cut_short"] = res["extra"].get("variants_cut_short", 0) + 1
+                            ctx.labels["variants_run"] += 1
+                            continue
                         raise
                     ctx.labels["variants_run"] += 1
+                ctx.slice_deadline, ctx.guaranteed = None, 0
             else:
                 from hypothesis import given
                 from hypothesis import seed as hseed
@@ -348,6 +369,12 @@ def run_part_shard(module_name: str, part_name: str, tier: str, seed: int, shard
         res["status"] = "error"
         res["error"] = "".join(traceback.format_exception(type(e), e, e.__traceback__))[-6000:]
     res["wall_s"] = time.time() - t0
+    try:
+        from . import covprobe
+
+        covprobe.dump(f"{module_name.rsplit('.', 1)[-1]}-{part_name}-{shard}")
+    except Exception:  # noqa: BLE001
+        pass
     return res
 
 
